@@ -137,6 +137,7 @@ type Thread struct {
 	clock   vc
 	steps   int
 	chosen  int // alternative chosen for a select
+	decided bool // chosen at a decision point: record the post-operation state key
 	blockedSince int
 }
 
@@ -146,6 +147,7 @@ type PointInfo struct {
 	Costs    []int // deviation cost of each alternative
 	CumCost  int   // cost accumulated before this point
 	Desc     []string
+	PostKeys [][2]uint64 // predicted state key right after each alternative (zero: not predictable)
 }
 
 // Env is an environment event source (ticker fire, timer expiry, clock jump ...).
@@ -163,10 +165,21 @@ type Env struct {
 // Cache is the happens-before state cache shared by the executions of one search.
 type Cache struct {
 	m map[[2]uint64]int
+	// p: states right after the operation chosen at a decision point (hash after the operation, thread+alternative)
+	p    map[[2]uint64]int
 	Hits int
 }
 
-func NewCache() *Cache { return &Cache{m: map[[2]uint64]int{}} }
+func NewCache() *Cache { return &Cache{m: map[[2]uint64]int{}, p: map[[2]uint64]int{}} }
+
+// PostSeen reports whether the state reached by an alternative was already explored with at least rem budget.
+func (c *Cache) PostSeen(key [2]uint64, rem int) bool {
+	if key == ([2]uint64{}) {
+		return false
+	}
+	old, ok := c.p[key]
+	return ok && old >= rem
+}
 func (c *Cache) Len() int { return len(c.m) }
 
 // Sched is one controlled execution.
@@ -443,6 +456,19 @@ func Point(op *Op) int {
 	sub := t.chosen
 	t.pending = nil
 	s.commit(t, op)
+	if t.decided {
+		t.decided = false
+		if s.cache != nil && op.Kind != KSleep && op.Kind != KYield {
+			rem := 1 << 20
+			if s.Bound >= 0 {
+				rem = s.Bound - s.cost
+			}
+			key := [2]uint64{s.hash, s.postSig(t, sub)}
+			if old, ok := s.cache.p[key]; !ok || old < rem {
+				s.cache.p[key] = rem
+			}
+		}
+	}
 	return sub
 }
 
@@ -599,6 +625,14 @@ func (s *Sched) pick(t *Thread, exiting bool) (*Thread, int, *Env) {
 				s.cache.m[key] = rem
 			}
 			pi := PointInfo{N: len(alts), Costs: costs, CumCost: s.cost}
+			if s.cache != nil && idx >= len(s.Prefix) {
+				pi.PostKeys = make([][2]uint64, len(alts))
+				for k, a := range alts {
+					if a.t != nil {
+						pi.PostKeys[k] = s.predictPost(a.t, a.sub)
+					}
+				}
+			}
 			if s.TraceOn {
 				for _, a := range alts {
 					if a.e != nil {
@@ -616,6 +650,9 @@ func (s *Sched) pick(t *Thread, exiting bool) (*Thread, int, *Env) {
 	a := alts[c]
 	if a.e != nil {
 		return nil, 0, a.e
+	}
+	if len(alts) > 1 {
+		a.t.decided = true
 	}
 	return a.t, a.sub, nil
 }
@@ -696,10 +733,10 @@ func (s *Sched) commit(t *Thread, op *Op) {
 			t.clock[t.nameH]++
 			o.r.join(t.clock)
 		}
-		s.hash ^= mix(mix(t.nameH, uint64(t.steps)), mix(uint64(op.Kind), mix(o.name, t.clock.hash())))
+		s.hash ^= eventHash(t.nameH, t.steps, op.Kind, o.name, t.clock.hash())
 	} else {
 		t.clock[t.nameH]++
-		s.hash ^= mix(mix(t.nameH, uint64(t.steps)), mix(uint64(op.Kind), t.clock.hash()))
+		s.hash ^= eventHash(t.nameH, t.steps, op.Kind, 0, t.clock.hash())
 	}
 	if op.Kind != KSleep && op.Kind != KYield {
 		s.yieldRun = 0
@@ -716,6 +753,43 @@ func (s *Sched) commit(t *Thread, op *Op) {
 		}
 		s.Trace = append(s.Trace, fmt.Sprintf("%s %s %s %s", t.Name, kindName(op.Kind), d, op.Site))
 	}
+}
+
+func eventHash(thread uint64, step int, kind Kind, obj uint64, clockHash uint64) uint64 {
+	return mix(mix(thread, uint64(step)), mix(uint64(kind), mix(obj, clockHash)))
+}
+
+// predictPost computes the state key right after th performs its pending operation (without performing it).
+func (s *Sched) predictPost(th *Thread, sub int) [2]uint64 {
+	op := th.pending
+	if op == nil || op.Kind == KGo || op.Kind == KSleep || op.Kind == KYield {
+		return [2]uint64{}
+	}
+	for _, x := range s.threads {
+		if x.yielded {
+			return [2]uint64{}
+		}
+	}
+	c := th.clock.clone()
+	var objName uint64
+	if o := op.Obj; o != nil {
+		c.join(o.w)
+		if op.Write {
+			c.join(o.r)
+		}
+		objName = o.name
+	}
+	c[th.nameH]++
+	h := s.hash ^ eventHash(th.nameH, th.steps+1, op.Kind, objName, c.hash())
+	return [2]uint64{h, s.postSig(th, sub)}
+}
+
+func (s *Sched) postSig(th *Thread, sub int) uint64 {
+	h := mix(th.nameH, uint64(sub)+1)
+	for _, e := range s.envs {
+		h += mix(e.nameH, uint64(e.fired)+11)
+	}
+	return h + uint64(s.Now)*31
 }
 
 func (s *Sched) commitEnv(e *Env) {
